@@ -974,7 +974,16 @@ class Machine:
                 src = self.operand(st, fr, stmt["src"])
                 dst = self.operand(st, fr, stmt["dst"])
                 cnt = self.operand(st, fr, stmt["count"])
-                self.models["std::ptr::copy_nonoverlapping"](self, st, None, [src, dst, cnt], stmt.get("span"))
+                # the statement form has no callee: recover T from the source operand's pointer type
+                sty = None
+                so = stmt["src"]
+                if so.get("k") in ("copy", "move"):
+                    sty = self.place_ty(fr, so["place"])
+                elif so.get("k") == "const":
+                    sty = so.get("ty")
+                inner = (sty or {}).get("inner") if (sty or {}).get("k") in ("ptr", "ref") else None
+                cctx = CallCtx(self, st, fr, None, "std::ptr::copy_nonoverlapping", [{"ty": inner}] if inner else [], None, stmt.get("span"), None)
+                self.models["std::ptr::copy_nonoverlapping"](self, st, cctx, [src, dst, cnt], stmt.get("span"))
         t = blk["term"]
         k = t["k"]
         if k == "goto":
